@@ -3,4 +3,8 @@ CLAIMED = {
             'rise/fall/flat pattern of an n-sample real series (n<=7 quick, n<=9 thorough) is a feasible path and '
             'every clause of the property is discharged by z3 for all real values realising the pattern.'),
 }
+CLAIMED['C12'] = ('DESIGN.md 4/C12', 'Bounded symbolic model checking of get_zero_crossings_array_indices and '
+    'get_switched_peak_array_indices: every sign/zero/order pattern of an n-sample real series (crossings n<=7, '
+    'switched peaks n<=6 quick) is a feasible path; the exact-crossing set, one-maximal-peak-per-excursion, sign '
+    'alternation and tolerance-subsequence clauses are decided by z3 for all real values on each path.')
 NOT_APPLICABLE = {}
